@@ -394,6 +394,28 @@ struct H {
         for (int k = 0; k < N; ++k)
             if (outs[k] != expected) return "H diff " + expected + "|" + outs[k];
         if (dumpValue(value, keep) != v0) return "H value-changed";
+        // the documented cached entry point: Template::Render(content, length, value, stream, tags_cache) with ONE
+        // cache shared by all threads (it parses only while the cache is empty; a template without tags keeps it
+        // empty, so every render parses again - which must not write to the shared cache either)
+        {
+            Stream warm;
+            Template::Render(p, SizeT(in.n), cvalue, warm, tg);
+            if (show(warm) != expected) return "H diff-cached-entry " + expected + "|" + show(warm);
+        }
+        for (int k = 0; k < N; ++k) {
+            th[k] = std::thread([&, k]() {
+                for (int r = 0; r < 3; ++r) {
+                    Stream ss;
+                    Template::Render(p, SizeT(in.n), cvalue, ss, tg);
+                    outs[k] = show(ss);
+                    if (outs[k] != expected) return;
+                }
+            });
+        }
+        for (int k = 0; k < N; ++k) th[k].join();
+        for (int k = 0; k < N; ++k)
+            if (outs[k] != expected) return "H diff-cached-entry " + expected + "|" + outs[k];
+        if (dumpValue(value, keep) != v0) return "H value-changed";
         return "H same";
     }
 
